@@ -98,14 +98,6 @@ impl FilterBlockReader {
 //@endfn
 //@endimpl
 
-pub proof fn lemma_offsets_enc_len(fs: Seq<Vec<u8>>, n: int)
-    requires 0 <= n <= fs.len()
-    ensures offsets_enc(fs, n).len() == 4 * n
-    decreases n
-{
-    broadcast use group_le;
-    if n > 0 { lemma_offsets_enc_len(fs, n - 1); }
-}
 pub proof fn lemma_offsets_word(fs: Seq<Vec<u8>>, n: int, i: int)
     requires 0 <= i < n <= fs.len()
     ensures offsets_enc(fs, n).subrange(4 * i, 4 * i + 4) == le_enc(concat_filters(fs, i).len(), 4)
